@@ -54,6 +54,12 @@ def cases(tier: str, seed: int) -> List[Dict[str, Any]]:
         for dt in ("float16", "bfloat16", "float64"):
             for sr in (2, 5):
                 out.append({"E": E, "M": M, "srbits": sr, "tier": tier, "seed": seed, "dtype": dt})
+    for E in range(2, 8):
+        for M in (0, 1, 2, 3, 8, 10):
+            for sr in (1, 3, 0):
+                if (sr and sr < 23 - M) or (not sr and 23 - M <= 16):
+                    for sub in ("subnormal_range", "normal_range", "at_least_min_subnormal", "below_min_normal_nonzero"):
+                        out.append({"E": E, "M": M, "srbits": sr, "tier": tier, "seed": seed, "subset": sub})
     # saturation under stochastic rounding (inputs beyond +-max clamp to +-max for EVERY draw), also with another
     # process default dtype; and results never alias the input, an earlier result, or a per-format buffer
     for E in range(2, 8):
@@ -241,6 +247,17 @@ def run_case(case: Dict[str, Any]) -> Dict[str, Any]:
         tag += f"|dtype={case['dtype']}"
         x = torch.unique(x.to(in_dtype).to(torch.float32))  # inputs exactly representable in the tensor dtype
         x = x[torch.isfinite(x) & (x.abs() <= fp.max_value(E, M))]
+    if case.get("subset"):
+        # quantisation is element-wise: a tensor holding only one magnitude class (no zeros, nothing below the smallest
+        # subnormal, ...) must be treated exactly like the same values inside a mixed tensor
+        tag += f"|only={case['subset']}"
+        ax_ = x.abs().to(torch.float64)
+        lo_, mid_ = fp.min_subnormal(E, M), fp.min_normal(E)
+        keep = {"subnormal_range": (ax_ >= lo_) & (ax_ < mid_), "normal_range": ax_ >= mid_,
+                "at_least_min_subnormal": ax_ >= lo_, "below_min_normal_nonzero": (ax_ > 0) & (ax_ < mid_)}[case["subset"]]
+        x = x[keep]
+        if x.numel() == 0:
+            return {"skipped": "no input in this magnitude class"}
     n, D = x.numel(), 2**nbits
     xr = x[:, None].expand(n, D).contiguous()
 
